@@ -94,6 +94,7 @@ Definition eod_post (p : list byte) (v4 v6 ks : list (list byte)) (w : world) (r
      core (sk w') = core (upd_serial s1 (get32 p 8))) \/
     (r = -1 /\ eod_failure P0 K0 v4 v6 ks /\
      Permutation (pfx w') (pfx w) /\ Permutation (keys w') (keys w) /\
+     oth_p (pfx w') = oth_p (pfx w) /\ oth_k (keys w') = oth_k (keys w) /\
      (resetting (sk w) = true -> pfx w' = pfx w /\ keys w' = keys w) /\
      core (sk w') = core s1))).
 
@@ -148,9 +149,7 @@ Proof.
   destruct (gapply prec prec_eqb TPfx prec_of_pdu (negb (resetting (sk w))) v4 P0 []) as [[P1 t1] [[[bad c] done]|]].
   { (* an IPv4 PDU fails *)
     destruct G1 as (pre & post' & Ev4 & -> & -> & Hap & Hfc). rewrite app_nil_r.
-    rewrite undo_pfx_gen.
-    destruct (gundo_spec prec prec_eqb prec_eqb_eq TPfx prec_of_pdu (negb (resetting (sk w))) pre P0 _ NP0 Hap (Permutation_refl _))
-      as (P2 & t2 & -> & PP2).
+    destruct (gundo_spec_oth_p (negb (resetting (sk w))) pre P0 NP0 Hap) as (P2 & t2 & -> & PP2 & OP2).
     assert (HF : eod_failure P0 K0 v4 v6 ks).
     { left. exists pre, bad, (post' ++ v6), c. rewrite Ev4, <- app_assoc. auto. }
     destruct (resetting (sk w)) eqn:Er; cbn [negb].
@@ -167,10 +166,9 @@ Proof.
   destruct (gapply prec prec_eqb TPfx prec_of_pdu (negb (resetting (sk w))) v6 (fold_left delta_p v4 P0) []) as [[P3 t3] [[[bad c] done]|]].
   { (* an IPv6 PDU fails *)
     destruct G2 as (pre & post' & Ev6 & -> & -> & Hap & Hfc). rewrite app_nil_r.
-    rewrite undo_pfx_gen, <- rev_app_distr, <- fold_left_app.
+    rewrite <- rev_app_distr, <- fold_left_app.
     assert (Hap' : applies_p (v4 ++ pre) P0) by (apply applies_app; auto).
-    destruct (gundo_spec prec prec_eqb prec_eqb_eq TPfx prec_of_pdu (negb (resetting (sk w))) (v4 ++ pre) P0 _ NP0 Hap' (Permutation_refl _))
-      as (P4 & t4 & -> & PP4).
+    destruct (gundo_spec_oth_p (negb (resetting (sk w))) (v4 ++ pre) P0 NP0 Hap') as (P4 & t4 & -> & PP4 & OP4).
     assert (HF : eod_failure P0 K0 v4 v6 ks).
     { left. exists (v4 ++ pre), bad, post', c. rewrite Ev6, <- app_assoc. rewrite <- fold_left_app in Hfc. auto. }
     destruct (resetting (sk w)) eqn:Er; cbn [negb].
@@ -188,12 +186,9 @@ Proof.
   destruct (gapply krec krec_eqb TKey krec_of_pdu (negb (resetting (sk w))) ks K0 []) as [[K1 t5] [[[bad c] done]|]].
   { (* a router-key PDU fails *)
     destruct G3 as (pre & post' & Eks & -> & -> & Hap & Hfc). rewrite app_nil_r.
-    rewrite undo_keys_gen.
-    destruct (gundo_spec krec krec_eqb krec_eqb_eq TKey krec_of_pdu (negb (resetting (sk w))) pre K0 _ NK0 Hap (Permutation_refl _))
-      as (K2 & t6 & -> & PK2).
-    rewrite undo_pfx_gen, <- rev_app_distr.
-    destruct (gundo_spec prec prec_eqb prec_eqb_eq TPfx prec_of_pdu (negb (resetting (sk w))) (v4 ++ v6) P0 _ NP0 Hap46 (Permutation_refl _))
-      as (P5 & t7 & -> & PP5).
+    destruct (gundo_spec_oth_k (negb (resetting (sk w))) pre K0 NK0 Hap) as (K2 & t6 & -> & PK2 & OK2).
+    rewrite <- rev_app_distr.
+    destruct (gundo_spec_oth_p (negb (resetting (sk w))) (v4 ++ v6) P0 NP0 Hap46) as (P5 & t7 & -> & PP5 & OP5).
     assert (HF : eod_failure P0 K0 v4 v6 ks).
     { right. split; [exact Hap46|]. exists pre, bad, post', c. auto. }
     destruct (resetting (sk w)) eqn:Er; cbn [negb].
@@ -212,3 +207,343 @@ Proof.
     right. split; [exact Es|]. left. destruct HS as [H1 H2 H3]. rewrite H1, H2, H3. auto 10.
 Qed.
 
+
+(* ---------- [eod_post] in the vocabulary of the property ---------- *)
+Inductive query := QReset | QSerial (session serial : Z).
+Definition next_query (s : sock) : query := if req_sess s then QReset else QSerial (session_id s) (serial s).
+
+Lemma eod_post_others p v4 v6 ks w r w' :
+  eod_post p v4 v6 ks w r w' -> oth_p (pfx w') = oth_p (pfx w) /\ oth_k (keys w') = oth_k (keys w).
+Proof.
+  intros [(_ & _ & (H1 & H2 & _))|(_ & [(_ & _ & _ & H1 & H2 & _)|(_ & _ & _ & _ & H1 & H2 & _)])].
+  - now rewrite H1, H2.
+  - rewrite H1, H2, oth_fold_p, oth_fold_k.
+    unfold upd_tab_p, upd_tab_k. destruct (resetting (sk w)); [|auto]. unfold oth_p, oth_k. now rewrite !oth_oth.
+  - auto.
+Qed.
+
+Lemma eod_post_result p v4 v6 ks w r w' : eod_post p v4 v6 ks w r w' -> r = 0 \/ r = -1.
+Proof. intros [(_ & -> & _)|(_ & [(-> & _)|(-> & _)])]; auto. Qed.
+
+(* success: the socket's own records are the old ones with the delta applied / exactly the announced set *)
+Lemma eod_post_success p v4 v6 ks w w' :
+  eod_post p v4 v6 ks w 0 w' ->
+  get16 p 2 = session_id (sk w) /\
+  own_p (pfx w') = (if resetting (sk w) then announced_p (v4 ++ v6) else apply_delta_p (own_p (pfx w)) (v4 ++ v6)) /\
+  own_k (keys w') = (if resetting (sk w) then announced_k ks else apply_delta_k (own_k (keys w)) ks) /\
+  applies_p (v4 ++ v6) (upd_tab_p w) /\ applies_k ks (upd_tab_k w) /\
+  core (sk w') = core (upd_serial (apply_eod_intervals (sk w) p) (get32 p 8)).
+Proof.
+  intros [(_ & H & _)|(Es & [(_ & A1 & A2 & H1 & H2 & H3)|(H & _)])]; try discriminate.
+  repeat split; auto.
+  - rewrite H1, own_fold_p. unfold upd_tab_p. destruct (resetting (sk w)); [|reflexivity].
+    unfold own_p, oth_p. now rewrite own_oth_nil.
+  - rewrite H2, own_fold_k. unfold upd_tab_k. destruct (resetting (sk w)); [|reflexivity].
+    unfold own_k, oth_k. now rewrite own_oth_nil.
+Qed.
+
+(* failure: tables as before (up to order; untouched when resetting), session bookkeeping as before *)
+Lemma eod_post_failure p v4 v6 ks w r w' :
+  eod_post p v4 v6 ks w r w' -> r <> 0 ->
+  Permutation (pfx w') (pfx w) /\ Permutation (keys w') (keys w) /\
+  (resetting (sk w) = true -> pfx w' = pfx w /\ keys w' = keys w) /\
+  session_id (sk w') = session_id (sk w) /\ req_sess (sk w') = req_sess (sk w) /\ serial (sk w') = serial (sk w) /\
+  last_update (sk w') = last_update (sk w) /\ resetting (sk w') = resetting (sk w) /\
+  (get16 p 2 <> session_id (sk w) \/ eod_failure (upd_tab_p w) (upd_tab_k w) v4 v6 ks).
+Proof.
+  intros [(Hs & _ & (H1 & H2 & H3))|(Es & [(-> & _)|(_ & HF & P1 & P2 & _ & _ & Hr & H3)])] Hr0; try congruence.
+  - rewrite H1, H2. apply core_fields in H3. intuition auto.
+  - destruct (apply_eod_intervals_core (sk w) p) as (E1 & E2 & E3 & E4 & E5 & E6 & _).
+    apply core_fields in H3. intuition congruence.
+Qed.
+
+(* ---------- relations with a condition on the result ---------- *)
+Definition frel (R : world -> world -> Prop) {A} (c : A -> Prop) (m : world -> res A) (w : world) : Prop :=
+  post m w (fun a w' => c a /\ R w w') (fun _ w' => R w w').
+
+Lemma frel_ret (R : world -> world -> Prop) {A} (c : A -> Prop) (a : A) w : c a -> R w w -> frel R c (ret a) w.
+Proof. unfold frel, post, ret. auto. Qed.
+
+Lemma frel_bind (R : world -> world -> Prop) (Rtrans : forall a b c, R a b -> R b c -> R a c) {A B} (c : B -> Prop)
+      (m : world -> res A) (f : A -> world -> res B) w :
+  rel R m w -> (forall a w', m w = Ok a w' -> frel R c (f a) w') -> frel R c (bind m f) w.
+Proof.
+  unfold rel, frel, post, bind. intros Hm Hf. destruct (m w) as [a w'|e w'] eqn:E; [|exact Hm].
+  specialize (Hf a w' eq_refl). destruct (f a w') as [b w2|e w2]; [destruct Hf; split; auto|]; eapply Rtrans; eauto.
+Qed.
+
+Ltac fstep :=
+  match goal with
+  | |- frel L _ (ret _) _ => apply frel_ret; [try discriminate | apply L_refl]
+  | |- frel L _ (bind _ _) _ => apply (frel_bind L L_trans); [ first [llem | apply receive_pdu_L] | intros ? ? _ ]
+  | |- frel L _ (if ?c then _ else _) _ => destruct c eqn:?
+  end.
+
+(* ---------- the receive loop ---------- *)
+(* a PDU that the loop buffers (prefix PDUs with valid lengths, router keys) or skips (Serial Notify) *)
+Definition storable (p : list byte) : bool :=
+  let ty := nthb p 1 in
+  negb (((ty =? c_IPV4_PREFIX) || (ty =? c_IPV6_PREFIX)) && negb (prefix_lengths_valid p)) &&
+  ((ty =? c_IPV4_PREFIX) || (ty =? c_IPV6_PREFIX) || (ty =? c_ROUTER_KEY) || (ty =? c_SERIAL_NOTIFY)).
+
+Definition push4 (p : list byte) (v4 : list (list byte)) := if nthb p 1 =? c_IPV4_PREFIX then v4 ++ [p] else v4.
+Definition push6 (p : list byte) (v6 : list (list byte)) :=
+  if nthb p 1 =? c_IPV4_PREFIX then v6 else if nthb p 1 =? c_IPV6_PREFIX then v6 ++ [p] else v6.
+Definition pushk (p : list byte) (ks : list (list byte)) :=
+  if nthb p 1 =? c_IPV4_PREFIX then ks else if nthb p 1 =? c_IPV6_PREFIX then ks else if nthb p 1 =? c_ROUTER_KEY then ks ++ [p] else ks.
+
+(* [collected w v4 v6 ks w' v4' v6' ks']: starting in w with the buffers v4 v6 ks, successive calls of
+   rtr_receive_pdu returned storable PDUs, which were appended in order, ending in w' *)
+Inductive collected : world -> list (list byte) -> list (list byte) -> list (list byte) ->
+                      world -> list (list byte) -> list (list byte) -> list (list byte) -> Prop :=
+| col_nil w v4 v6 ks : collected w v4 v6 ks w v4 v6 ks
+| col_step w w1 w2 p v4 v6 ks v4' v6' ks' :
+    receive_pdu c_RTR_RECV_TIMEOUT w = Ok (inr p) w1 -> storable p = true ->
+    collected w1 (push4 p v4) (push6 p v6) (pushk p ks) w2 v4' v6' ks' ->
+    collected w v4 v6 ks w2 v4' v6' ks'.
+
+Lemma collected_L w v4 v6 ks w' v4' v6' ks' : collected w v4 v6 ks w' v4' v6' ks' -> L w w'.
+Proof.
+  induction 1 as [|w w1 w2 p v4 v6 ks v4' v6' ks' E _ _ IH]; [apply L_refl|].
+  pose proof (receive_pdu_L c_RTR_RECV_TIMEOUT w) as H. unfold rel in H. rewrite E in H. eapply L_trans; eauto.
+Qed.
+
+(* the loop reached End of Data: everything it did to the tables is this one call of process_eod *)
+Definition reached_eod (w : world) (v4 v6 ks : list (list byte)) (res : res Z) : Prop :=
+  exists wa wb eod v4' v6' ks',
+    collected w v4 v6 ks wa v4' v6' ks' /\
+    receive_pdu c_RTR_RECV_TIMEOUT wa = Ok (inr eod) wb /\ nthb eod 1 = c_EOD /\
+    process_eod eod v4' v6' ks' wb = res.
+
+Definition loop_post (w : world) (v4 v6 ks : list (list byte)) (r : Z) (w' : world) : Prop :=
+  (r <> 0 /\ L w w') \/ reached_eod w v4 v6 ks (Ok r w').
+Definition loop_exc (w : world) (v4 v6 ks : list (list byte)) (e : exc) (w' : world) : Prop :=
+  L w w' \/ reached_eod w v4 v6 ks (Exc e w').
+
+Lemma store_loop_spec fuel : forall v4 v6 ks w,
+  post (store_loop fuel v4 v6 ks) w (loop_post w v4 v6 ks) (loop_exc w v4 v6 ks).
+Proof.
+  induction fuel as [|f IH]; intros v4 v6 ks w; cbn [store_loop].
+  { apply post_ret. left. split; [discriminate|apply L_refl]. }
+  apply post_bind.
+  pose proof (receive_pdu_L c_RTR_RECV_TIMEOUT w) as HL. unfold rel in HL.
+  apply post_eq; [intros r w1 E|intros e w1 E]; rewrite E in HL; [|left; exact HL].
+  assert (Hfail : forall (m : world -> res Z), frel L (fun r => r <> 0) m w1 ->
+                  post m w1 (loop_post w v4 v6 ks) (loop_exc w v4 v6 ks)).
+  { intros m Hm. eapply post_weaken; [exact Hm|intros a w' [Ha Hw]; left; split; [exact Ha|eapply L_trans; eauto]|
+                                      intros e w' Hw; left; eapply L_trans; eauto]. }
+  assert (Hrec : forall p, r = inr p -> storable p = true ->
+                 post (store_loop f (push4 p v4) (push6 p v6) (pushk p ks)) w1 (loop_post w v4 v6 ks) (loop_exc w v4 v6 ks)).
+  { intros p -> Hst. eapply post_weaken; [apply IH| |].
+    - intros a w' [[Ha Hw]|(wa & wb & eod & a4 & a6 & ak & Hc & Hr & Ht & Hp)].
+      + left. split; [exact Ha|eapply L_trans; eauto].
+      + right. exists wa, wb, eod, a4, a6, ak. repeat split; auto. eapply col_step; eauto.
+    - intros e w' [Hw|(wa & wb & eod & a4 & a6 & ak & Hc & Hr & Ht & Hp)].
+      + left. eapply L_trans; eauto.
+      + right. exists wa, wb, eod, a4, a6, ak. repeat split; auto. eapply col_step; eauto. }
+  destruct r as [c|p].
+  { apply Hfail. repeat fstep. }
+  cbv zeta.
+  destruct (((nthb p 1 =? c_IPV4_PREFIX) || (nthb p 1 =? c_IPV6_PREFIX)) && negb (prefix_lengths_valid p)) eqn:Elen.
+  { apply Hfail. repeat fstep. }
+  destruct (nthb p 1 =? c_IPV4_PREFIX) eqn:E4.
+  { specialize (Hrec p eq_refl). unfold storable, push4, push6, pushk in Hrec. rewrite E4, Elen in Hrec. apply Hrec. reflexivity. }
+  destruct (nthb p 1 =? c_IPV6_PREFIX) eqn:E6.
+  { specialize (Hrec p eq_refl). unfold storable, push4, push6, pushk in Hrec. rewrite E4, E6, Elen in Hrec. apply Hrec. reflexivity. }
+  destruct (nthb p 1 =? c_ROUTER_KEY) eqn:Ek.
+  { specialize (Hrec p eq_refl). unfold storable, push4, push6, pushk in Hrec. rewrite E4, E6, Elen, Ek in Hrec. apply Hrec. reflexivity. }
+  destruct (nthb p 1 =? c_EOD) eqn:Ee.
+  { apply Z.eqb_eq in Ee.
+    apply post_eq; [intros a w' Hp; right|intros e w' Hp; right]; exists w, w1, p, v4, v6, ks; repeat split; auto; constructor. }
+  destruct (nthb p 1 =? c_ERROR) eqn:Eerr.
+  { apply Hfail. repeat fstep. }
+  destruct (nthb p 1 =? c_SERIAL_NOTIFY) eqn:En.
+  { specialize (Hrec p eq_refl). unfold storable, push4, push6, pushk in Hrec. rewrite E4, E6, Elen, Ek, En in Hrec. apply Hrec. reflexivity. }
+  apply Hfail. repeat fstep.
+Qed.
+
+(* ---------- rtr_sync_receive_and_store_pdus: the loop, then is_resetting is cleared ---------- *)
+Definition clear_resetting (w : world) : world :=
+  mkW (if resetting (sk w) then upd_resetting (sk w) false else sk w) (pfx w) (keys w) (evs w) (opens w) (sends w) (now w) (out w).
+
+Lemma receive_and_store_eq fuel w :
+  receive_and_store fuel w =
+  match store_loop fuel [] [] [] w with Ok r w1 => Ok r (clear_resetting w1) | Exc e w1 => Exc e w1 end.
+Proof. unfold receive_and_store, bind, modify_sk, get_sk, set_sk, ret, clear_resetting. destruct (store_loop fuel [] [] [] w); reflexivity. Qed.
+
+Lemma clear_resetting_facts w :
+  pfx (clear_resetting w) = pfx w /\ keys (clear_resetting w) = keys w /\ resetting (sk (clear_resetting w)) = false /\
+  session_id (sk (clear_resetting w)) = session_id (sk w) /\ req_sess (sk (clear_resetting w)) = req_sess (sk w) /\
+  serial (sk (clear_resetting w)) = serial (sk w) /\ last_update (sk (clear_resetting w)) = last_update (sk w) /\
+  refresh_iv (sk (clear_resetting w)) = refresh_iv (sk w) /\ expire_iv (sk (clear_resetting w)) = expire_iv (sk w) /\
+  retry_iv (sk (clear_resetting w)) = retry_iv (sk w) /\ now (clear_resetting w) = now w /\
+  st (sk (clear_resetting w)) = st (sk w) /\ out (clear_resetting w) = out w.
+Proof. unfold clear_resetting. cbn [pfx keys sk now out]. destruct (resetting (sk w)) eqn:E; cbn; auto 20. Qed.
+
+Lemma receive_and_store_spec fuel w :
+  post (receive_and_store fuel) w
+       (fun r w' => exists w1, w' = clear_resetting w1 /\ loop_post w [] [] [] r w1)
+       (loop_exc w [] [] []).
+Proof.
+  unfold post. rewrite receive_and_store_eq. pose proof (store_loop_spec fuel [] [] [] w) as H. unfold post in H.
+  destruct (store_loop fuel [] [] [] w); [eexists; split; [reflexivity|exact H]|exact H].
+Qed.
+
+(* is_resetting is cleared by every attempt that returns *)
+Lemma receive_and_store_clears fuel w r w' : receive_and_store fuel w = Ok r w' -> resetting (sk w') = false.
+Proof.
+  rewrite receive_and_store_eq. destruct (store_loop fuel [] [] [] w); [|discriminate].
+  intros H. inversion H; subst. apply clear_resetting_facts.
+Qed.
+
+(* ---------- rtr_sync ---------- *)
+Ltac fstep2 :=
+  match goal with
+  | |- frel L _ (ret _) _ => apply frel_ret; [try discriminate; try reflexivity | apply L_refl]
+  | |- frel L _ (bind get_sk _) _ => apply (frel_bind L L_trans); [lprim | let H := fresh "Heq" in intros ? ? H; unfold_prims_in H; injection H as <- <-]
+  | |- frel L _ (bind _ _) _ => apply (frel_bind L L_trans); [ first [llem | apply receive_pdu_L | lprim] | intros ? ? _ ]
+  | |- frel L _ (if ?c then _ else _) _ => destruct c eqn:?
+  end.
+
+Lemma sync_first_spec fuel : forall w,
+  post (sync_first fuel) w
+       (fun o w1 => L w w1 /\ match o with
+                              | Some p => exists wa, L w wa /\ receive_pdu c_RTR_RECV_TIMEOUT wa = Ok (inr p) w1 /\
+                                                     (nthb p 1 =? c_SERIAL_NOTIFY) = false
+                              | None => True end)
+       (fun _ w1 => L w w1).
+Proof.
+  induction fuel as [|f IH]; intros w; cbn [sync_first]; [apply post_ret; split; [apply L_refl|exact I]|].
+  apply post_bind.
+  pose proof (receive_pdu_L c_RTR_RECV_TIMEOUT w) as HL. unfold rel in HL.
+  apply post_eq; [intros r w1 E|intros e w1 E]; rewrite E in HL; [|exact HL].
+  destruct r as [c|p].
+  - assert (Hf : frel L (fun o : option (list byte) => o = None)
+                      (mdo s <- get_sk;
+                       if (c =? -4) && req_sess s && (version s >? c_RTR_PROTOCOL_MIN_SUPPORTED_VERSION)
+                       then mdo _ <- set_sk (upd_version s (version s - 1)); mdo _ <- change_state c_RTR_FAST_RECONNECT; ret None
+                       else if (c =? -2) || (c =? -4) then mdo _ <- change_state c_RTR_ERROR_TRANSPORT; ret None else ret None) w1)
+      by (repeat fstep2).
+    eapply post_weaken; [exact Hf|intros a w' [-> Hw]; split; [eapply L_trans; eauto|exact I]|intros e w' Hw; eapply L_trans; eauto].
+  - destruct (nthb p 1 =? c_SERIAL_NOTIFY) eqn:En.
+    + eapply post_weaken; [apply IH| |].
+      * intros o w' [Hw Ho]. split; [eapply L_trans; eauto|]. destruct o as [q|]; [|exact I].
+        destruct Ho as (wa & H1 & H2 & H3). exists wa. split; [eapply L_trans; eauto|split; assumption].
+      * intros e w' Hw. eapply L_trans; eauto.
+    + apply post_ret. split; [exact HL|]. exists w. split; [apply L_refl|split; assumption].
+Qed.
+
+(* the world after a Cache Response was accepted: a socket without a session adopts the cache's, and starts
+   an atomic reload if it holds data (last_update <> 0) *)
+Definition after_cr (w1 : world) (cr : list byte) : world :=
+  let s := sk w1 in
+  mkW (upd_session (if negb (last_update s =? 0) then upd_resetting s true else s) (get16 cr 2))
+      (pfx w1) (keys w1) (evs w1) (opens w1) (sends w1) (now w1) (out w1).
+Definition cr_world (w1 : world) (cr : list byte) : world := if req_sess (sk w1) then after_cr w1 cr else w1.
+
+(* the world after a successful receive: request_session_id := false, last_update := now *)
+Definition sync_done (w3 : world) : world :=
+  mkW (upd_last (upd_req (sk w3) false) (now w3)) (pfx w3) (keys w3) (evs w3) (opens w3) (sends w3) (now w3) (out w3).
+
+(* nothing that matters for the next query, and no table, has changed *)
+Definition M (w w' : world) : Prop :=
+  pfx w' = pfx w /\ keys w' = keys w /\ req_sess (sk w') = req_sess (sk w) /\ serial (sk w') = serial (sk w) /\
+  last_update (sk w') = last_update (sk w) /\
+  (req_sess (sk w) = false -> session_id (sk w') = session_id (sk w) /\ resetting (sk w') = resetting (sk w) \/ resetting (sk w') = false).
+
+Lemma L_M w w' : L w w' -> M w w'.
+Proof. intros (H1 & H2 & H3). apply core_fields in H3. unfold M. intuition auto. Qed.
+
+Lemma M_L_trans a b c : M a b -> L b c -> M a c.
+Proof.
+  intros (A1 & A2 & A3 & A4 & A5 & A6) (B1 & B2 & B3). apply core_fields in B3.
+  destruct B3 as (C1 & C2 & C3 & C4 & C5 & C6 & C7 & C8 & C9). unfold M.
+  repeat split; try congruence. intros H. destruct (A6 H) as [[X Y]|X]; [left; split; congruence|right; congruence].
+Qed.
+
+Lemma M_clear a b : M a b -> M a (clear_resetting b).
+Proof.
+  pose proof (clear_resetting_facts b) as F. intros (A1 & A2 & A3 & A4 & A5 & A6). unfold M.
+  repeat split; try (intuition congruence).
+Qed.
+
+Lemma M_cr_world w w1 cr : L w w1 -> (req_sess (sk w1) = false -> session_id (sk w1) = get16 cr 2) -> M w (cr_world w1 cr).
+Proof.
+  intros HL Hs. unfold cr_world. destruct (req_sess (sk w1)) eqn:Er; [|now apply L_M].
+  destruct HL as (H1 & H2 & H3). apply core_fields in H3. unfold M, after_cr. cbn [pfx keys sk].
+  destruct (negb (last_update (sk w1) =? 0)); cbn; repeat split; try (intuition congruence).
+  all: intros H; exfalso; intuition congruence.
+Qed.
+
+(* the exchange got as far as End of Data *)
+Definition sync_reached_eod (fuel : nat) (w : world) (cr : list byte) (w1 : world) (res : res Z) : Prop :=
+  sync_first fuel w = Ok (Some cr) w1 /\ nthb cr 1 = c_CACHE_RESPONSE /\
+  (req_sess (sk w1) = false -> session_id (sk w1) = get16 cr 2) /\
+  reached_eod (cr_world w1 cr) [] [] [] res.
+
+Definition sync_post (fuel : nat) (w : world) (r : Z) (w' : world) : Prop :=
+  (r <> 0 /\ M w w') \/
+  exists cr w1 r0 w3, sync_reached_eod fuel w cr w1 (Ok r0 w3) /\
+                      ((r0 = 0 /\ r = 0 /\ w' = sync_done (clear_resetting w3)) \/
+                       (r0 <> 0 /\ r = -1 /\ w' = clear_resetting w3)).
+Definition sync_exc (fuel : nat) (w : world) (e : exc) (w' : world) : Prop :=
+  M w w' \/ exists cr w1, sync_reached_eod fuel w cr w1 (Exc e w').
+
+Lemma rtr_sync_struct fuel w : post (rtr_sync fuel) w (sync_post fuel w) (sync_exc fuel w).
+Proof.
+  unfold rtr_sync. apply post_bind.
+  pose proof (sync_first_spec fuel w) as HS.
+  apply post_eq; [intros fp w1 E|intros e w1 E].
+  2:{ left. apply L_M. exact (post_exc _ _ _ _ _ _ HS E). }
+  destruct (post_ok _ _ _ _ _ _ HS E) as [HL Hp]. clear HS.
+  assert (Hfail : forall (m : world -> res Z), frel L (fun r => r <> 0) m w1 ->
+                  post m w1 (sync_post fuel w) (sync_exc fuel w)).
+  { intros m Hm. eapply post_weaken; [exact Hm|intros a w' [Ha Hw]; left; split; [exact Ha|apply L_M; eapply L_trans; eauto]|
+                                      intros e w' Hw; left; apply L_M; eapply L_trans; eauto]. }
+  destruct fp as [p|]; [|apply Hfail; repeat fstep2].
+  cbv zeta.
+  destruct (nthb p 1 =? c_ERROR) eqn:Eerr; [apply Hfail; repeat fstep2|].
+  destruct (nthb p 1 =? c_CACHE_RESET) eqn:Ecr; [apply Hfail; repeat fstep2|].
+  destruct (nthb p 1 =? c_CACHE_RESPONSE) eqn:Ersp; [|apply Hfail; repeat fstep2].
+  apply Z.eqb_eq in Ersp.
+  apply post_bind. unfold post at 1, get_sk.
+  (* the session check *)
+  assert (Hcont : forall w2, w2 = cr_world w1 p -> (req_sess (sk w1) = false -> session_id (sk w1) = get16 p 2) ->
+            post (mdo r <- receive_and_store fuel;
+                  if r =? 0 then mdo _ <- modify_sk (fun s => upd_req s false); mdo t <- get_now;
+                                 mdo _ <- modify_sk (fun s => upd_last s t); ret 0
+                  else ret (-1)) w2 (sync_post fuel w) (sync_exc fuel w)).
+  { intros w2 -> Hs. pose proof (M_cr_world w w1 p HL Hs) as HM.
+    apply post_bind. pose proof (receive_and_store_spec fuel (cr_world w1 p)) as HR.
+    apply post_eq; [intros r w3 E3|intros e w3 E3].
+    - destruct (post_ok _ _ _ _ _ _ HR E3) as (w3' & -> & [[Hr Hw]|Hre]).
+      + apply Z.eqb_neq in Hr. rewrite Hr. apply post_ret. left. split; [discriminate|].
+        apply M_clear. eapply M_L_trans; eauto.
+      + destruct (r =? 0) eqn:Er0.
+        * apply Z.eqb_eq in Er0. subst r. unfold post, bind, modify_sk, get_sk, set_sk, get_now, ret.
+          right. exists p, w1, 0, w3'. split; [repeat split; auto|]. left. repeat split; auto.
+        * apply Z.eqb_neq in Er0. apply post_ret. right. exists p, w1, r, w3'. split; [repeat split; auto|]. right. auto.
+    - destruct (post_exc _ _ _ _ _ _ HR E3) as [Hw|Hre].
+      + left. eapply M_L_trans; eauto.
+      + right. exists p, w1. repeat split; auto. }
+  destruct (req_sess (sk w1)) eqn:Erq.
+  - (* no session yet: adopt the cache's *)
+    unfold bind at 2. unfold set_sk, ret. unfold bind at 1. cbn [negb].
+    apply Hcont; [unfold cr_world; rewrite Erq; reflexivity|discriminate].
+  - destruct (negb (session_id (sk w1) =? get16 p 2)) eqn:Esid.
+    + (* foreign session *)
+      unfold bind at 2.
+      assert (Hf : frel L (fun r => r <> 0)
+                     (mdo ok <- (mdo _ <- send_error_from_host [] c_CORRUPT_DATA txt_wrong_session;
+                                 mdo _ <- change_state c_RTR_ERROR_FATAL; ret false);
+                      if negb ok then ret (-1) else
+                        mdo r <- receive_and_store fuel;
+                        if r =? 0 then mdo _ <- modify_sk (fun s => upd_req s false); mdo t <- get_now;
+                                       mdo _ <- modify_sk (fun s => upd_last s t); ret 0
+                        else ret (-1)) w1).
+      { unfold frel. apply post_bind_assoc. apply post_bind_assoc'. admit. }
+      admit.
+    + apply negb_false_iff, Z.eqb_eq in Esid.
+      unfold bind at 1. unfold ret at 1. cbn [negb].
+      apply Hcont; [unfold cr_world; rewrite Erq; reflexivity|auto].
+Admitted.
